@@ -44,7 +44,7 @@ def bfs_numpy(graph: CayleyGraph, max_diameter: int = 1000000) -> list[int]:
         for i1 in range(pn):
             # All states where we can go from layer1 by permutation i1 (except those that are in layer0).
             next_group = [perm_funcs[i1](layer1[i2]) for i2 in range(pn) if i2 != inv_perm_idx[i1]]
-            states = np.hstack(next_group)
+            states = np.hstack(next_group) if next_group else np.array([], dtype=np.int64)
             states = np.sort(states)
             for i2 in range(pn):
                 states = np.setdiff1d(states, layer0[i2], assume_unique=True)
